@@ -40,6 +40,7 @@ func runC07(c *Ctx) {
 		ruleEnsureExact(c, p, "C07.ensure")
 		ruleFieldBeforeUse(c, p, "C07.field-before-use")
 		ruleAutoStateful(c, p, "C07.auto-stateful")
+		ruleAutoAdopts(c, p, "C07.auto-adopt")
 		ruleReaderSource(c, p, "C07.source")
 		ruleReadSizes(c, p, "C07.sizes")
 	}
